@@ -1192,7 +1192,7 @@ pub fn dispatch<F: Family>(cx: &mut Cx<'_, F>, op: &Op) -> Outcome {
         SwapExchange => cx.o_swap_exchange(op),
         Read | Counts | CmpEq | CmpOrd | HashOp | FmtOp | PtrEq | WithArcNoop => cx.o_inspect(op),
         GetMut | GetUnique | IsUnique | TryUnique | TryUnwrap | TryFromUni | MakeMut | MakeUnique | UnwrapOrClone | IntoInner
-        | DepWrite | DepAsMutSlice | ThinMutGetMut | ThinMutReplace | ThinMutNoop | UniWrite => crate::exec_uniq::uniq(cx, op),
+        | DepWrite | DepAsMutSlice | ThinMutGetMut | ThinMutReplace | ThinMutNoop | UniWrite | DeInPlace => crate::exec_uniq::uniq(cx, op),
         WriteSlot | AssumeInit => crate::exec_uniq::uninit(cx, op),
         Drop => cx.o_drop(op),
         Send | Recv => cx.o_mail(op),
